@@ -279,7 +279,25 @@ def run_chunk(hx_exe, drv, cases, leak, timeout=120):
                 ml.append((c, key, l))
         if not ml:
             return crash
-        r = __import__("subprocess").run([drv], input=("\n".join(l for _, _, l in ml) + "\n").encode(), stdout=-1, stderr=-1)
+        sp = __import__("subprocess")
+        try:
+            r = sp.run([drv], input=("\n".join(l for _, _, l in ml) + "\n").encode(), stdout=-1, stderr=-1, timeout=max(60, 2 * timeout))
+        except sp.TimeoutExpired:
+            # a case on which the list-based Lean model is too slow (e.g. a lenprefix count in the millions): run the cases one by
+            # one and leave the slow ones unanswered (counted as model_timeouts in the evidence, compared by the other oracles)
+            for c in cases:
+                cl = [(k, l) for cc, k, l in ml if cc is c]
+                if not cl:
+                    continue
+                try:
+                    r1 = sp.run([drv], input=("\n".join(l for _, l in cl) + "\n").encode(), stdout=-1, stderr=-1, timeout=10)
+                    o1 = r1.stdout.decode(errors="replace").splitlines()
+                    if r1.returncode == 0 and len(o1) == len(cl):
+                        for (k, _), a in zip(cl, o1):
+                            c.model[k] = a
+                except sp.TimeoutExpired:
+                    c.model_timeout = True
+            return crash
         mo = r.stdout.decode(errors="replace").splitlines()
         if r.returncode != 0 or len(mo) != len(ml):
             raise RuntimeError("model driver failed: rc=%s %d/%d lines %s" % (r.returncode, len(mo), len(ml), r.stderr.decode(errors="replace")[-300:]))
@@ -645,6 +663,7 @@ def run(ctx, only_cases=None):
         "compiled_bytecode_validated_against_source": sum(1 for c in cases if c.model.get(("validate", "compile")) == "V1"),
         "compile_model_words_equal_real": sum(1 for c in cases if ("cmodel", "compile") in c.model),
         "validation_expected": sum(1 for c in cases if getattr(c, "expect_valid", False)),
+        "model_timeouts": sum(1 for c in cases if getattr(c, "model_timeout", False)),
         "disagreements": len(diffs_all), "crashes": len(crashes), "lenprefix_mode_leak_in_source": bool(leak & 1), "number_raw_accumulate_in_source": bool(leak & 2),
     }
     return ctx.finish("proof", cov, assumptions=[
